@@ -32,6 +32,16 @@ def scenario(r, kind):
         qa = {'kind': ('select', [('expr', ('like', ('fld', 'a', 0), ('lit', r.choice(['a%', '_', '%k'])))), ('expr', ('like', ('fld', 'a', 1), ('lit', '_')))]), 'where': None, 'join': None}
     elif kind == 'unnest':
         qa = {'kind': ('select', [('expr', ('fld', 'a', 0)), ('unnest', ('list', [('fld', 'a', 1), ('lit', 'u')]), 'UNNEST')]), 'where': None, 'join': None, 'top': 3}
+    elif kind == 'named':
+        # column-name variables: the same query TEXT over tables whose headers are ordered differently
+        hdr = r.choice([['name', 'score'], ['score', 'name']])
+        i_name, i_score = hdr.index('name'), hdr.index('score')
+        A = [[None, None] for _ in range(n)]
+        for row in A:
+            row[i_name] = r.choice(['a', 'b', 'k'])
+            row[i_score] = str(r.randint(1, 9))
+        qa = {'kind': ('select', [('expr', ('fld', 'a', i_name)), ('expr', ('fld', 'a', i_score))]), 'where': ('ne', ('fld', 'a', i_score), ('lit', '5')), 'join': None}
+        return {'q': 'select a.name, a.score where a.score != "5"', 'qa': qa, 'A': A, 'B': None, 'kind': kind, 'hdrA': hdr}
     elif kind == 'runtime_error':
         qa = {'kind': ('select', [('expr', ('int', ('fld', 'a', 0)))]), 'where': None, 'join': None}
     elif kind == 'parse_error':
@@ -42,7 +52,7 @@ def scenario(r, kind):
     return {'q': c['q'], 'qa': qa, 'A': A, 'B': B, 'kind': kind}
 
 
-KINDS = ['select', 'aggregate', 'distinct_order', 'join', 'update', 'like', 'unnest', 'runtime_error', 'parse_error']
+KINDS = ['select', 'aggregate', 'distinct_order', 'join', 'update', 'like', 'unnest', 'named', 'named', 'runtime_error', 'parse_error']
 
 
 def solo(queries):
@@ -104,7 +114,7 @@ def run(ctx):
         if not isinstance(g, dict) or 'results' not in g or len(g['results']) != len(e['results']):
             return False
         for x, y in zip(e['results'], g['results']):
-            if y is None or x['events'] != y['events'] or x['error'] != y['error'] or x['pulls'] != y['pulls']:
+            if y is None or ec.strip_header(x['events']) != ec.strip_header(y['events']) or x['error'] != y['error'] or x['pulls'] != y['pulls']:     # header: C07
                 return False
         return True
     ctx.compare(send, exp, got, THEOREM, rel=rel,
@@ -129,5 +139,5 @@ def replay(ctx, case):
     _a, _m, so = solo(case['queries'])
     got = lib.run_impl_py('c16', [case], shards=1)
     ctx.count()
-    ok = isinstance(got[0], dict) and all(y is not None and x['events'] == y['events'] and x['error'] == y['error'] and x['pulls'] == y['pulls'] for x, y in zip(so, got[0].get('results', [])))
+    ok = isinstance(got[0], dict) and all(y is not None and ec.strip_header(x['events']) == ec.strip_header(y['events']) and x['error'] == y['error'] and x['pulls'] == y['pulls'] for x, y in zip(so, got[0].get('results', [])))
     ctx.compare([case], [{'results': so}], got, THEOREM, rel=lambda c, e, g: ok)
